@@ -224,6 +224,9 @@ impl Lib {
         let _w = callwatch::enter();
         let r = catch_unwind(AssertUnwindSafe(|| match (version, bufsize) {
             (4, Some(b)) => cfb::OpenOptions::new().max_buffer_size(b).create_with(d2),
+            // the plain constructors are public API too (version 4 is what `create` makes;
+            // `create_with_version(V4)` is used by pathapi::create_bytes)
+            (4, None) => CompoundFile::create(d2),
             (v, _) => CompoundFile::create_with_version(version_of(v), d2),
         }));
         match r {
@@ -239,6 +242,13 @@ impl Lib {
         clear_panic();
         let _w = callwatch::enter();
         let r = catch_unwind(AssertUnwindSafe(|| {
+            // without options: the plain constructors `CompoundFile::open` / `open_strict`
+            // (for about half of the images, chosen by the image's length so that a replay
+            // takes the same route; the others go through OpenOptions without a buffer size)
+            let plain = bufsize.is_none() && (d2.len() / 512) % 2 == 1;
+            if plain {
+                return if strict { CompoundFile::open_strict(d2) } else { CompoundFile::open(d2) };
+            }
             let mut o = cfb::OpenOptions::new();
             if let Some(b) = bufsize {
                 o = o.max_buffer_size(b);
